@@ -14,5 +14,6 @@ CONSTANTS
   Rates = {0, 1500}
   MaxBase = 2
   MaxEv = 2
+  Terms = 1
   Record = TRUE
 INVARIANT Emit
